@@ -4,6 +4,8 @@ import (
 	"fmt"
 	"maps"
 	"reflect"
+	"slices"
+	"sort"
 	"strings"
 )
 
@@ -133,6 +135,7 @@ func (o OneOfSchema[KeyType]) UnserializeType(data any) (result any, err error) 
 			validDiscriminators[i] = fmt.Sprintf("%v", k)
 			i++
 		}
+		sort.Strings(validDiscriminators)
 		return result, &ConstraintError{
 			Message: fmt.Sprintf(
 				"Invalid value for %q, expected one of: %s",
@@ -325,6 +328,7 @@ func (o OneOfSchema[KeyType]) getTypeValues() []KeyType {
 		output[i] = key
 		i += 1
 	}
+	slices.Sort(output)
 	return output
 }
 
@@ -437,6 +441,7 @@ func (o OneOfSchema[KeyType]) findUnderlyingType(data any) (KeyType, Object, err
 			}
 			i++
 		}
+		sort.Strings(values)
 		return nilKey, nil, &ConstraintError{
 			Message: fmt.Sprintf(
 				"Invalid type for one-of schema: '%s' (valid types are: %s)",
